@@ -108,10 +108,22 @@ namespace AIToolbox {
         if (compatiblePoints.size() == 1) {
             const auto & compPoint = ubV.first[compatiblePoints[0]];
 
-            result.resize(1);
-            result[0] = (point.cwiseQuotient(compPoint)).minCoeff();
+            // How much the point lies below the surface spanned by the corners.
+            const double gain = ubV.second[compatiblePoints[0]] - compPoint.transpose() * cornerVals;
 
-            unscaledValue = result[0] * (ubV.second[compatiblePoints[0]] - compPoint.transpose() * cornerVals);
+            // Only states where the input is non-zero limit the ratio (elsewhere
+            // both are zero); a point above the corner surface cannot help.
+            double ratio = 0.0;
+            if (gain < 0.0) {
+                ratio = 1.0;
+                for (const auto s : nonZeroStates)
+                    if (compPoint[s] > 0.0)
+                        ratio = std::min(ratio, point[s] / compPoint[s]);
+            }
+            result.resize(1);
+            result[0] = ratio;
+
+            unscaledValue = ratio * gain;
         } else {
             /*
              * Here we run the LP.
